@@ -172,8 +172,8 @@ func C18Witness() *C18Model {
 }
 
 // the tuple-to-userset at various depths of the rewrite (typesystem.flattenUserset must find it)
-func c18PlaceTTU(r *rec.Rand, ttu *Rewrite) *Rewrite {
-	switch r.Intn(6) {
+func c18PlaceTTU(k int, ttu *Rewrite) *Rewrite {
+	switch k {
 	case 0:
 		return Union(This(), ttu)
 	case 1:
@@ -190,7 +190,7 @@ func c18PlaceTTU(r *rec.Rand, ttu *Rewrite) *Rewrite {
 }
 
 // C18Custom builds hand-made shapes.
-func C18Custom(r *rec.Rand) *C18Model {
+func C18Custom(r *rec.Rand, force int) *C18Model {
 	user := TypeDef{Name: "user"}
 	s := &Scenario{}
 	m := &C18Model{S: s}
@@ -202,7 +202,11 @@ func C18Custom(r *rec.Rand) *C18Model {
 		}
 	}
 	group := TypeDef{Name: "group", Rels: []RelDef{{Name: "member", RW: This(), Restr: []Restr{RObj("user"), RSet("group", "member")}}}}
-	switch r.Intn(9) {
+	shape := r.Intn(9)
+	if force >= 0 {
+		shape = force % 9
+	}
+	switch shape {
 	case 0: // the F4 region: one user type under several forms with different conditions
 		m.Shape = "kind-mix"
 		conds("c1", "c2")
@@ -238,14 +242,17 @@ func C18Custom(r *rec.Rand) *C18Model {
 		m.Shape = "bad-tupleset-restrictions"
 		m.Unvalidated = true
 		conds("c1")
+		doc := TypeDef{Name: "doc"}
+		for k := 0; k < 6; k++ {
+			pn := fmt.Sprintf("parent%d", k)
+			doc.Rels = append(doc.Rels,
+				RelDef{Name: pn, RW: This(), Restr: []Restr{RObj("folder"), RWild("folder"), RSet("folder", "viewer"), RObj("user")}},
+				RelDef{Name: fmt.Sprintf("viewer%d", k), RW: c18PlaceTTU(k, TTU(pn, "viewer")), Restr: []Restr{RObj("user")}})
+		}
 		s.Types = []TypeDef{user,
 			{Name: "folder", Rels: []RelDef{
 				{Name: "viewer", RW: This(), Restr: []Restr{RObj("user"), RWild("user").With("c1")}},
-			}},
-			{Name: "doc", Rels: []RelDef{
-				{Name: "parent", RW: This(), Restr: []Restr{RObj("folder"), RWild("folder"), RSet("folder", "viewer"), RObj("user")}},
-				{Name: "viewer", RW: c18PlaceTTU(r, TTU("parent", "viewer")), Restr: []Restr{RObj("user")}},
-			}}}
+			}}, doc}
 	case 4: // REFUSED: restrictions naming an undefined condition, type or relation
 		m.Shape = "bad-references"
 		m.Unvalidated = true
